@@ -10,6 +10,9 @@ def NEXTC(ctx='ctx', noeff=True):
 REJ = f'hcN[0] == {K} && err != nil && newCtx == ctx'
 S = 'single(payload(tx))'
 SIG = '(ctx sdk.Context, tx sdk.Tx, simulate bool, next sdk.AnteHandler) (newCtx sdk.Context, err error)'
+REQTX = '//@   requires tx != nil && txUnpacked(payload(tx))'
+def PAN(extra=''):
+    return '//@   panics[C20.own_code_panics] only_if hcPanics[hcN[0]]' + extra
 FROM = 'bech32Bytes(ethMsgOf(payload(tx)).From)'
 B = 'bytes(ethMsgOf(payload(tx)).MarshalledTx)'
 out = f'''//go:build verif
@@ -24,7 +27,10 @@ package evmlane
 // 03e: EVM-lane only. Cosmos lane: straight to the continuation, nothing touched. Ethereum lane: continues only for a
 // non-empty sender address whose account has no contract code (an externally owned account).
 //@ func (ead ELValidateBasicEoaDecorator) AnteHandle{SIG}
+{REQTX}
 //@   modifies everything
+// own panics: msg.From is not bech32 (excluded by 03: msg.ValidateBasic)
+{PAN(f' || ({S} && !bech32Valid(ethMsgOf(payload(tx)).From))')}
 //@   ensures[C07.cosmos_passes] !{S} ==> ({NEXTC()})
 //@   ensures[C07.eth_next_or_reject] {S} ==> (({NEXTC()}) || ({REJ}))
 //@   ensures[C06.sender_is_eoa] ({S} && hcN[0] == {K} + 1) ==> old(isEmptyCodeHash(evmCodeHash[layer(ctx)][{FROM}]))
@@ -34,7 +40,9 @@ package evmlane
 // and header — and sees the tx counter advanced by one, the tx's whole gas limit recorded as its gas used and a placeholder receipt
 // stored under the new index, so that every counted tx has a receipt (receipts stay dense).
 //@ func (sed ELSetupExecutionDecorator) AnteHandle{SIG}
+{REQTX}
 //@   modifies everything
+{PAN()}
 //@   requires {S} ==> (trCount[layer(ctx)] + 1 < pow2(64) && txDecodable({B}) && decType({B}) <= 2)
 //@   ensures[C07.cosmos_passes] !{S} ==> ({NEXTC()})
 //@   ensures[C07.eth_continues,C13.eth_continues] {S} ==> ({NEXTC(None)} && layer(hcCtx[{K}]) == layer(ctx) && hdr(hcCtx[{K}]) == hdr(ctx) && mode(hcCtx[{K}]) == mode(ctx))
@@ -48,7 +56,10 @@ package evmlane
 //@ import evmtypes "github.com/EscanBE/evermint/v12/x/evm/types"
 //@ import strconv "strconv"
 //@ func (eed ELEmitEventDecorator) AnteHandle{SIG}
+{REQTX}
 //@   modifies everything
+// own panics: the embedded bytes do not decode (excluded by 03)
+{PAN(f' || ({S} && !txDecodable({B}))')}
 //@   ensures[C07.cosmos_passes] !{S} ==> ({NEXTC()})
 //@   ensures[C07.eth_continues,C13.eth_continues] {S} ==> ({NEXTC()})
 //@   at call types.EventManagerI.EmitEvent@1 assert[C13.ante_event_on_ctx_manager] recv == ctx.EventManager() && single(payload(tx))
@@ -64,7 +75,11 @@ package evmlane
 // requires: the stored fee-market params are valid (x/feemarket SetParams: base fee present), as for the fee checkers.
 //@ func (ed ELExecWithoutErrorDecorator) AnteHandle{SIG}
 //@   requires !fmBaseFeeNil[layer(ctx)]
+{REQTX}
 //@   modifies everything
+// own panics (trial path only): bytes do not decode / signature invalid (the explicit panic(err); both excluded by 03), chain id unset,
+// msg.From not bech32 or the sender's account missing while the "nonce increased" flag is set (excluded by 03 / 07 / 11 / 12)
+{PAN(f' || ({S} && (ctx.IsCheckTx() || ctx.IsReCheckTx() || simulate) && (!txDecodable({B}) || !decSigOk({B}) || evmChainId[layer(ctx)] == 0 || (trFlagNonce[layer(ctx)] && (!bech32Valid(ethMsgOf(payload(tx)).From) || !acctExists[layer(ctx)][{FROM}]))))')}
 //@   ensures[C07.cosmos_passes,C08.cosmos_passes] !{S} ==> ({NEXTC()})
 //@   ensures[C07.deliver_passes,C08.deliver_passes] (!ctx.IsCheckTx() && !ctx.IsReCheckTx() && !simulate) ==> ({NEXTC()})
 //@   ensures[C08.trial_next_or_reject] (({NEXTC(None)} && hcCtx[{K}] == ctx) || ({REJ}))
